@@ -101,6 +101,7 @@ func TestC02(t *testing.T) {
 	cfg.MaxPerRound = 4
 	cfg.IKPool = nil
 	cfg.RefPool = nil
+	cfg.Crashes = 1 // a restart in the middle changes nothing about what the log may contain
 	runProp(t, c, func(rt *rapid.T) {
 		plan := enginesim.GenPlan(rt, cfg)
 		r := runEngine(t, rt, c, plan)
@@ -140,10 +141,11 @@ func TestC02(t *testing.T) {
 
 func TestC05(t *testing.T) {
 	c := evid.New("C05")
-	c.Rule = "histories of all write kinds, 1-3 rounds of 1-3 concurrent requests, generated choice lists (id allocation / chaining / hand-off / InsertLogs gates), batch sizes {production,1,2,3}, up to 2 crash+restart points, dry runs and keyed replays in between. Oracle: ids 0..n-1 in insertion order, hash recomputed from stored content and from the read-back form, hash depends on previous hash, transaction ids 0,1,2.. in log order. Non-trivial = >=2 overlapping writers or a crash followed by a later write; distinct by operations + gate trace."
+	c.Rule = "histories of all write kinds, 1-3 rounds of 1-3 concurrent requests, generated choice lists (id allocation / chaining / hand-off / InsertLogs gates), batch sizes {production,1,2,3}, up to 2 crash+restart points and a failing InsertLogs (the runner dies, the process restarts), dry runs and keyed replays in between. Oracle: ids 0..n-1 in insertion order, hash recomputed from stored content and from the read-back form, hash depends on previous hash, transaction ids 0,1,2.. in log order. Non-trivial = >=2 overlapping writers or a crash followed by a later write; distinct by operations + gate trace."
 	c.Assumptions = []string{engineAssumption}
 	cfg := enginesim.DefaultConfig()
 	cfg.Crashes = 2
+	cfg.Faults = 1
 	cfg.SmallBatches = true
 	cfg.DryRunPct = 10
 	cfg.MetaFirstPct = 25
